@@ -234,16 +234,20 @@ func (r *run) tx(a *actor, d *dtState, e Ev) {
 		}
 		return nil
 	}
+	tag := e.Tag
+	if tag == "" {
+		tag = "t"
+	}
 	msg, fp := safely(func() {
 		switch p := d.pub.(type) {
 		case orda.Counter:
-			_ = p.Transaction("t", func(c orda.CounterInTx) error { return body(api{cnt: c}) })
+			_ = p.Transaction(tag, func(c orda.CounterInTx) error { return body(api{cnt: c}) })
 		case orda.Map:
-			_ = p.Transaction("t", func(c orda.MapInTx) error { return body(api{mp: c}) })
+			_ = p.Transaction(tag, func(c orda.MapInTx) error { return body(api{mp: c}) })
 		case orda.List:
-			_ = p.Transaction("t", func(c orda.ListInTx) error { return body(api{li: c}) })
+			_ = p.Transaction(tag, func(c orda.ListInTx) error { return body(api{li: c}) })
 		case orda.Document:
-			_ = p.Transaction("t", func(c orda.DocumentInTx) error { return body(api{doc: c}) })
+			_ = p.Transaction(tag, func(c orda.DocumentInTx) error { return body(api{doc: c}) })
 		}
 	})
 	if msg != "" {
